@@ -1174,6 +1174,332 @@ Proof.
   rewrite Forall_forall in F. apply F; auto.
 Qed.
 
+(* ================================================================== depth: clauses for every reachable tour / registry *)
+Lemma firstn2_pair {A} (l : list A) : forall i a b,
+  nth_error l i = Some a -> nth_error l (S i) = Some b -> firstn 2 (skipn i l) = [a; b].
+Proof.
+  induction l as [|x l IH]; intros i a b Ha Hb; [destruct i; discriminate|].
+  destruct i as [|i].
+  - cbn in Ha, Hb. inversion Ha; subst. destruct l as [|y l]; [discriminate|]. cbn in Hb. inversion Hb; subst. reflexivity.
+  - cbn [skipn]. apply (IH i a b Ha Hb).
+Qed.
+Lemma firstn2_last {A} (l : list A) : forall i a, nth_error l i = Some a -> S i = length l -> firstn 2 (skipn i l) = [a].
+Proof.
+  induction l as [|x l IH]; intros i a Ha HL; [destruct i; discriminate|].
+  destruct i as [|i].
+  - cbn in Ha. inversion Ha; subst. destruct l; [reflexivity|simpl in HL; lia].
+  - cbn [skipn]. apply (IH i a Ha). simpl in HL. lia.
+Qed.
+
+(* legs of EVERY tour reachable by any history: leg i = (activity i, activity i+1); open tours: extra last one-activity leg *)
+Lemma legs_history c ops t : trun (tour_new c) ops = Some t ->
+  length (legs t) = total t - (if c then 1 else 0) /\
+  (forall i a b, nth_error (t_acts t) i = Some a -> nth_error (t_acts t) (S i) = Some b ->
+                 nth_error (legs t) i = Some ([a; b], i)) /\
+  (c = false -> forall a, nth_error (t_acts t) (total t - 1) = Some a ->
+                 nth_error (legs t) (total t - 1) = Some ([a], total t - 1)).
+Proof.
+  intros H. destruct (wfweak_history c ops t H) as [W C]. subst c.
+  destruct (wfweak_nonempty t W) as [NE C2]. destruct (legs_spec t NE C2) as [L N]. unfold legs_count in *.
+  split; auto. split.
+  - intros i a b Ha Hb. assert (S i < total t) by (unfold total; apply nth_error_Some; congruence).
+    rewrite N by (destruct (t_closed t); lia). rewrite (firstn2_pair _ i a b Ha Hb). reflexivity.
+  - intros E a Ha. rewrite E in *. assert (0 < total t) by (unfold total; destruct (t_acts t); [congruence|simpl; lia]).
+    rewrite N by lia. rewrite (firstn2_last _ _ a Ha) by (unfold total in *; lia). reflexivity.
+Qed.
+
+Definition jobs_of (l : list act) : list nat :=
+  flat_map (fun a => match a_job a with Some j => [j] | None => [] end) l.
+Lemma jobs_of_In l j : In j (jobs_of l) <-> exists a, In a l /\ a_job a = Some j.
+Proof.
+  unfold jobs_of. rewrite in_flat_map. split; intros [a [Ha H]]; exists a; split; auto.
+  - destruct (a_job a); cbn in H; [destruct H as [<-|[]]; auto|contradiction].
+  - rewrite H. left; auto.
+Qed.
+Lemma job_count_distinct t : jobs_ok t -> job_count t = length (nodup Nat.eq_dec (jobs_of (t_acts t))).
+Proof.
+  intros [ND J]. unfold job_count. apply Nat.le_antisymm.
+  - apply NoDup_incl_length; auto. intros j Hj. apply nodup_In. apply jobs_of_In. apply J. auto.
+  - apply NoDup_incl_length; [apply NoDup_nodup|]. intros j Hj. apply nodup_In in Hj. apply J. apply jobs_of_In. auto.
+Qed.
+Lemma counts_history c ops t : trun (tour_new c) ops = Some t ->
+  total t = job_activity_count t + 1 + (if c then 1 else 0) /\
+  job_activity_count t = length (filter hasjob (t_acts t)) /\
+  job_count t = length (nodup Nat.eq_dec (jobs_of (t_acts t))) /\
+  job_count t <= job_activity_count t /\
+  (has_jobs t = true <-> job_activity_count t <> 0).
+Proof.
+  intros H. destruct (wfweak_history c ops t H) as [W C]. subst c.
+  destruct (wfweak_counts t W) as [A [B [D E]]]. destruct W as [_ J].
+  split; auto. split; auto. split; [apply job_count_distinct; auto|]. split; auto.
+Qed.
+
+Lemma wftour_counts_abs t : WFTour t ->
+  job_activity_count t = length (abs t) /\ total t = length (abs t) + 1 + (if t_closed t then 1 else 0).
+Proof.
+  intros [[mid [A F]] J]. rewrite (abs_shape t mid A). unfold job_activity_count, total. rewrite A. simpl.
+  rewrite app_length, ends_length. destruct (t_closed t); lia.
+Qed.
+Lemma guarded_history_full c ops t :
+  guarded (tour_new c) ops -> trun (tour_new c) ops = Some t ->
+  t_closed t = c /\ t_acts t = start_act :: abs t ++ ends c /\ Forall (fun a => hasjob a = true) (abs t) /\
+  NoDup (t_jobs t) /\ (forall j, In j (t_jobs t) <-> exists a, In a (abs t) /\ a_job a = Some j) /\
+  job_activity_count t = length (abs t) /\ total t = length (abs t) + 1 + (if c then 1 else 0) /\
+  job_count t = length (nodup Nat.eq_dec (jobs_of (abs t))).
+Proof.
+  intros G H. destruct (wftour_history c ops t G H) as [W C]. subst c.
+  destruct (wftour_repr t W) as [A [F [ND J]]]. destruct (wftour_counts_abs t W) as [JC TL].
+  repeat split; auto; try apply J.
+  unfold job_count. apply Nat.le_antisymm.
+  - apply NoDup_incl_length; auto. intros j Hj. apply nodup_In. apply jobs_of_In. apply J. auto.
+  - apply NoDup_incl_length; [apply NoDup_nodup|]. intros j Hj. apply nodup_In in Hj. apply J. apply jobs_of_In. auto.
+Qed.
+
+(* the index guard is exactly what keeps the depots in place *)
+Lemma guard_necessary t a i t' r :
+  WFTour t -> tstep t (TInsertAt a i) = Some (t', r) -> ends_in_place t' -> in_guard t (TInsertAt a i).
+Proof.
+  intros [[mid [A F]] J] H [mid' [A' F']].
+  apply tstep_insert_at in H. destruct H as [j [Ej [Hi [_ [_ ->]]]]]. cbn [t_acts t_closed] in A'. cbn [in_guard]. unfold total.
+  destruct i as [|i].
+  - exfalso. unfold insert_nth in A'. cbn in A'. injection A' as Ea _. subst a. discriminate Ej.
+  - destruct (t_closed t) eqn:C; [|lia].
+    destruct (Nat.eq_dec (S i) (length (t_acts t))) as [E|N]; [|lia]. exfalso.
+    rewrite E, insert_nth_end in A'. cbn [ends] in A'.
+    change (start_act :: mid' ++ [end_act]) with ((start_act :: mid') ++ [end_act]) in A'.
+    apply app_inj_tail in A'. destruct A' as [_ Ea]. subst a. discriminate Ej.
+Qed.
+Lemma guard_exact t a i t' r :
+  WFTour t -> tstep t (TInsertAt a i) = Some (t', r) -> (ends_in_place t' <-> in_guard t (TInsertAt a i)).
+Proof.
+  intros W H. split; [apply (guard_necessary t a i t' r W H)|].
+  intros G. destruct W as [E J]. eapply ends_in_place_step; eauto.
+Qed.
+
+(* when does a step panic (None)?  exactly in the documented cases *)
+Lemma tstep_panic_iff t : WFweak t ->
+  (forall a i, tstep t (TInsertAt a i) = None <-> a_job a = None \/ total t < i) /\
+  (forall a, tstep t (TInsertLast a) = None <-> a_job a = None) /\
+  (forall j, tstep t (TRemove j) <> None) /\
+  (forall i, tstep t (TRemoveAt i) = None <-> forall a, nth_error (t_acts t) i = Some a -> a_job a = None).
+Proof.
+  intros W. destruct (wfweak_nonempty t W) as [NE C2].
+  assert (P1 : forall a i, tstep t (TInsertAt a i) = None <-> a_job a = None \/ total t < i).
+  { intros a i. cbn [tstep]. unfold insert_at, total. destruct (a_job a) as [j|]; [|split; auto].
+    rewrite match_nonempty by auto. destruct (Nat.leb i (length (t_acts t))) eqn:L.
+    - apply Nat.leb_le in L. split; [discriminate|intros [H|H]; [discriminate|lia]].
+    - apply Nat.leb_gt in L. split; auto. }
+  split; auto. split; [|split].
+  - intros a. rewrite tstep_insert_last, P1. split; auto. intros [H|H]; auto. exfalso.
+    destruct (wfweak_counts t W) as [T _]. lia.
+  - intros j. cbn. discriminate.
+  - intros i. cbn [tstep]. unfold remove_activity_at. destruct (nth_error (t_acts t) i) as [a|].
+    + destruct (a_job a) eqn:E.
+      * split; [discriminate|intros H; specialize (H a eq_refl); congruence].
+      * split; auto. intros _ a0 Ha0. inversion Ha0; subst; auto.
+    + split; auto. intros _ a0 H0. discriminate.
+Qed.
+
+(* ---- deep-copy independence over whole histories: a slot only changes when an operation writes it *)
+Definition swrites (o : sop) : option nat :=
+  match o with STour k _ => Some k | SSetState k _ => Some k | _ => None end.
+Lemma set_nth_length {A} (x : A) : forall l k, length (set_nth k x l) = length l.
+Proof. induction l as [|y l IH]; intros k; destruct k; cbn; auto. Qed.
+Lemma sstep_length ss o ss' r k : sstep ss o = Some (ss', r, k) -> length ss <= length ss'.
+Proof.
+  intros H. destruct o as [k0 o|k0 mode|k0 v|k0 w j]; cbn in H; destruct (nth_error ss k0) as [s|]; try discriminate.
+  - destruct (tstep (s_tour s) o) as [[t' r']|]; [|discriminate]. inversion H; subst. rewrite set_nth_length. lia.
+  - inversion H; subst. rewrite app_length. lia.
+  - inversion H; subst. rewrite set_nth_length. lia.
+  - inversion H; subst. lia.
+Qed.
+Lemma sstep_frame_w ss o ss' r k k' :
+  sstep ss o = Some (ss', r, k) -> swrites o <> Some k' -> k' < length ss -> nth_error ss' k' = nth_error ss k'.
+Proof.
+  intros H W L. destruct o as [k0 o|k0 mode|k0 v|k0 w j]; cbn in H, W; destruct (nth_error ss k0) as [s|]; try discriminate.
+  - destruct (tstep (s_tour s) o) as [[t' r']|]; [|discriminate]. inversion H; subst. apply set_nth_other. congruence.
+  - inversion H; subst. apply nth_error_app1; auto.
+  - inversion H; subst. apply set_nth_other. congruence.
+  - inversion H; subst. reflexivity.
+Qed.
+Lemma sfold_frame ops : forall ss k,
+  Forall (fun o => swrites o <> Some k) ops -> k < length ss -> nth_error (sfold ss ops) k = nth_error ss k.
+Proof.
+  induction ops as [|o ops IH]; intros ss k F L; cbn; auto. inversion F; subst.
+  destruct (sstep ss o) as [[[ss' r] kk]|] eqn:S; auto.
+  pose proof (sstep_length _ _ _ _ _ S). rewrite IH by (auto; lia). eapply sstep_frame_w; eauto.
+Qed.
+Lemma tour_copy_independent ss k mode ss1 r n ops :
+  sstep ss (SCopy k mode) = Some (ss1, r, n) ->
+  (Forall (fun o => swrites o <> Some k) ops -> nth_error (sfold ss1 ops) k = nth_error ss k) /\
+  (Forall (fun o => swrites o <> Some n) ops -> nth_error (sfold ss1 ops) n = nth_error ss1 n).
+Proof.
+  intros H. destruct (sstep_copy _ _ _ _ _ _ H) as [-> [s [s' [E [E' _]]]]]. pose proof (sstep_length _ _ _ _ _ H) as LE.
+  assert (Lk : k < length ss) by (apply nth_error_Some; congruence).
+  assert (Ln : length ss < length ss1) by (apply nth_error_Some; congruence).
+  split; intros F.
+  - rewrite sfold_frame by (auto; lia). eapply sstep_frame; eauto. lia.
+  - apply sfold_frame; auto.
+Qed.
+
+Definition rswrites (o : rsop) : option nat := match o with RSOp k _ => Some k | _ => None end.
+Lemma rsstep_length cs o cs' r k : rsstep cs o = Some (cs', r, k) -> length cs <= length cs'.
+Proof.
+  intros H. destruct o as [k0 o|k0|k0 keep]; cbn in H; destruct (nth_error cs k0) as [c|]; try discriminate.
+  - destruct (rstep c o) as [c1 b]. inversion H; subst. rewrite set_nth_length. lia.
+  - inversion H; subst. rewrite app_length. lia.
+  - inversion H; subst. rewrite app_length. lia.
+Qed.
+Lemma rsstep_frame_w cs o cs' r k k' :
+  rsstep cs o = Some (cs', r, k) -> rswrites o <> Some k' -> k' < length cs -> nth_error cs' k' = nth_error cs k'.
+Proof.
+  intros H W L. destruct o as [k0 o|k0|k0 keep]; cbn in H, W; destruct (nth_error cs k0) as [c|]; try discriminate.
+  - destruct (rstep c o) as [c1 b]. inversion H; subst. apply set_nth_other. congruence.
+  - inversion H; subst. apply nth_error_app1; auto.
+  - inversion H; subst. apply nth_error_app1; auto.
+Qed.
+Lemma rsfold_frame ops : forall cs k,
+  Forall (fun o => rswrites o <> Some k) ops -> k < length cs -> nth_error (rsfold cs ops) k = nth_error cs k.
+Proof.
+  induction ops as [|o ops IH]; intros cs k F L; cbn; auto. inversion F; subst.
+  destruct (rsstep cs o) as [[[cs' r] kk]|] eqn:S; auto.
+  pose proof (rsstep_length _ _ _ _ _ S). rewrite IH by (auto; lia). eapply rsstep_frame_w; eauto.
+Qed.
+(* a deep copy / deep slice (pushed as slot n) and its original k evolve independently *)
+Lemma reg_copy_independent cs o cs1 r n ops k :
+  (o = RSCopy k \/ exists keep, o = RSSlice k keep) -> rsstep cs o = Some (cs1, r, n) ->
+  n = length cs /\
+  (Forall (fun o => rswrites o <> Some k) ops -> nth_error (rsfold cs1 ops) k = nth_error cs k) /\
+  (Forall (fun o => rswrites o <> Some n) ops -> nth_error (rsfold cs1 ops) n = nth_error cs1 n).
+Proof.
+  intros O H. pose proof (rsstep_length _ _ _ _ _ H) as LE.
+  assert (P : n = length cs /\ k < length cs /\ length cs < length cs1).
+  { destruct O as [->|[keep ->]]; cbn in H; destruct (nth_error cs k) as [c|] eqn:E; try discriminate; inversion H; subst;
+      (split; [reflexivity|split; [apply nth_error_Some; congruence|rewrite app_length; simpl; lia]]). }
+  destruct P as [-> [Lk Ln]]. split; auto. split; intros F.
+  - rewrite rsfold_frame by (auto; lia). eapply rsstep_frame_w; eauto.
+    destruct O as [->|[keep ->]]; cbn; discriminate.
+  - apply rsfold_frame; auto.
+Qed.
+
+(* ---- the registry never lists an actor twice, and every slot of every run satisfies the offer clause *)
+Lemma NoDup_app_disj {A} (l1 l2 : list A) :
+  NoDup l1 -> NoDup l2 -> (forall x, In x l1 -> ~ In x l2) -> NoDup (l1 ++ l2).
+Proof.
+  induction l1 as [|x l1 IH]; intros N1 N2 D; cbn; auto. inversion N1; subst. constructor.
+  - rewrite in_app_iff. intros [H|H]; auto. apply (D x); [left|]; auto.
+  - apply IH; auto. intros y Hy. apply D. right; auto.
+Qed.
+Lemma available_NoDup r : WFReg r -> NoDup (available r).
+Proof.
+  intros [ND [W2 _]]. unfold available.
+  assert (G : forall m, NoDup (map fst m) ->
+     (forall g s, In (g, s) m -> NoDup s /\ forall a, In a s -> lookup a (r_index r) = Some g) -> NoDup (flat_map snd m)).
+  { induction m as [|[g s] m IH]; intros N H; cbn [flat_map snd]; [constructor|].
+    cbn [map fst] in N. apply NoDup_cons_iff in N. destruct N as [Ng Nm].
+    destruct (H g s (or_introl eq_refl)) as [Ns Is]. apply NoDup_app_disj; auto.
+    - apply IH; auto. intros g' s' Hin. apply H. right; auto.
+    - intros x Hx Hx'. apply in_flat_map in Hx'. destruct Hx' as [[g' s'] [Hin Hs']]. cbn in Hs'.
+      destruct (H g' s' (or_intror Hin)) as [_ Is']. specialize (Is x Hx). specialize (Is' x Hs').
+      assert (g = g') by congruence. subst. apply Ng. apply (in_map fst) in Hin. exact Hin. }
+  apply G; auto. intros g s Hin. apply W2. apply lookup_In; auto.
+Qed.
+Lemma run_reg_offers gs ops c : In c (rsfold [rctx_new gs] ops) ->
+  WFReg (c_reg c) /\ NoDup (available (c_reg c)) /\
+  exists hs tr, hrun (rctx_new gs) hs = (c, tr) /\
+    forall a, alternating a false tr /\
+              (In a (available (c_reg c)) <-> In a (r_all (c_reg c)) /\ held_after a false tr = false).
+Proof.
+  intros H. destruct (run_reg_slots gs ops c H) as [hs Hh].
+  destruct (hrun (rctx_new gs) hs) as [c' tr] eqn:R. cbn in Hh. subst c'.
+  assert (W : WFReg (c_reg c)) by (destruct (registry_history gs hs c tr 0 R) as [W _]; exact W).
+  split; auto. split; [apply available_NoDup; auto|]. exists hs, tr. split; auto.
+  intros a. destruct (registry_history gs hs c tr a R) as [_ [AL AV]]. auto.
+Qed.
+Lemma run_tour_observations c ops s : In s (sfold [mkSlot (tour_new c) None] ops) ->
+  WFweak (s_tour s) /\ t_closed (s_tour s) = c /\
+  length (legs (s_tour s)) = total (s_tour s) - (if c then 1 else 0) /\
+  total (s_tour s) = job_activity_count (s_tour s) + 1 + (if c then 1 else 0) /\
+  job_count (s_tour s) = length (nodup Nat.eq_dec (jobs_of (t_acts (s_tour s)))).
+Proof.
+  intros H. destruct (run_tour_slots c ops s H) as [tops T].
+  destruct (wfweak_history c tops _ T) as [W C]. destruct (legs_history c tops _ T) as [L _].
+  destruct (counts_history c tops _ T) as [A [_ [D _]]]. auto.
+Qed.
+
+(* ---- guarded histories of the multi-slot machine keep EVERY slot fully well-formed (depots in place) *)
+Definition sop_guard (ss : list slot) (o : sop) : Prop :=
+  match o with
+  | STour k o' => match nth_error ss k with Some s => in_guard (s_tour s) o' | None => True end
+  | _ => True
+  end.
+Fixpoint sguarded (ss : list slot) (ops : list sop) : Prop :=
+  match ops with
+  | [] => True
+  | o :: r => sop_guard ss o /\ match sstep ss o with Some (ss', _, _) => sguarded ss' r | None => True end
+  end.
+Lemma sstep_wftour ss o ss' r k :
+  Forall (fun s => WFTour (s_tour s)) ss -> sop_guard ss o -> sstep ss o = Some (ss', r, k) ->
+  Forall (fun s => WFTour (s_tour s)) ss'.
+Proof.
+  intros F G H. destruct o as [k0 o|k0 mode|k0 v|k0 w j]; cbn in H, G; destruct (nth_error ss k0) as [s|] eqn:E; try discriminate;
+    assert (Ws : WFTour (s_tour s)) by (rewrite Forall_forall in F; apply F; eapply nth_error_In; eauto).
+  - destruct (tstep (s_tour s) o) as [[t' r']|] eqn:S; [|discriminate]. inversion H; subst.
+    apply set_nth_Forall; auto. cbn. eapply wftour_step; eauto.
+  - inversion H; subst. apply Forall_app. split; auto.
+  - inversion H; subst. apply set_nth_Forall; auto.
+  - inversion H; subst. auto.
+Qed.
+Lemma sfold_wftour ops : forall ss,
+  Forall (fun s => WFTour (s_tour s)) ss -> sguarded ss ops -> Forall (fun s => WFTour (s_tour s)) (sfold ss ops).
+Proof.
+  induction ops as [|o ops IH]; intros ss F G; cbn; auto. destruct G as [G0 G].
+  destruct (sstep ss o) as [[[ss' r] k]|] eqn:S; auto. apply IH; auto. eapply sstep_wftour; eauto.
+Qed.
+Lemma run_tour_guarded c ops s :
+  sguarded [mkSlot (tour_new c) None] ops -> In s (sfold [mkSlot (tour_new c) None] ops) -> WFTour (s_tour s).
+Proof.
+  intros G H. assert (F : Forall (fun s => WFTour (s_tour s)) (sfold [mkSlot (tour_new c) None] ops)).
+  { apply sfold_wftour; auto. constructor; auto. apply wftour_new. }
+  rewrite Forall_forall in F. apply F; auto.
+Qed.
+
+(* ---- all(): never changes except by deep_slice, lists no actor twice, only fleet actors *)
+Lemma use_actor_all r a : r_all (fst (use_actor r a)) = r_all r.
+Proof.
+  unfold use_actor. destruct (lookup a (r_index r)) as [g|]; auto. destruct (lookup g (r_avail r)) as [s|]; auto.
+  destruct (set_mem a s); auto.
+Qed.
+Lemma free_actor_all r a : r_all (fst (free_actor r a)) = r_all r.
+Proof.
+  unfold free_actor. destruct (lookup a (r_index r)) as [g|]; auto. destruct (lookup g (r_avail r)) as [s|]; auto.
+  destruct (set_mem a s); auto.
+Qed.
+Lemma hstep_all c h : exists keep, r_all (c_reg (fst (hstep c h))) = filter keep (r_all (c_reg c)).
+Proof.
+  assert (ID : forall l : list nat, l = filter (fun _ => true) l) by (induction l; cbn; congruence).
+  destruct h as [[x|x|x|]|keep]; cbn [hstep rstep].
+  - exists (fun _ => true). pose proof (use_actor_all (c_reg c) x). destruct (use_actor (c_reg c) x); cbn in *. rewrite H. apply ID.
+  - exists (fun _ => true). pose proof (free_actor_all (c_reg c) x). destruct (free_actor (c_reg c) x); cbn in *. rewrite H. apply ID.
+  - exists (fun _ => true). unfold get_route. pose proof (use_actor_all (c_reg c) x). destruct (use_actor (c_reg c) x); cbn in *. rewrite H. apply ID.
+  - exists (fun _ => true). cbn. apply ID.
+  - exists (fun a => set_mem a keep). reflexivity.
+Qed.
+Lemma registry_all_history gs hs : forall c tr, hrun (rctx_new gs) hs = (c, tr) ->
+  NoDup (r_all (c_reg c)) /\ forall a, In a (r_all (c_reg c)) -> a < length gs.
+Proof.
+  assert (G : forall hs c0 c tr, hrun c0 hs = (c, tr) ->
+     NoDup (r_all (c_reg c0)) /\ (forall a, In a (r_all (c_reg c0)) -> a < length gs) ->
+     NoDup (r_all (c_reg c)) /\ (forall a, In a (r_all (c_reg c)) -> a < length gs)).
+  { induction hs0 as [|h hs0 IH]; intros c0 c tr H I; cbn in H.
+    - inversion H; subst; auto.
+    - destruct (hstep_all c0 h) as [keep K]. destruct (hstep c0 h) as [c1 b] eqn:S. cbn in K.
+      destruct (hrun c1 hs0) as [c2 tr2] eqn:R. inversion H; subst. apply (IH c1 c tr2 R).
+      destruct I as [ND LT]. rewrite K. split; [apply NoDup_filter; auto|].
+      intros a Ha. apply filter_In in Ha. apply LT. tauto. }
+  intros c tr H. apply (G hs _ _ _ H). cbn. split; [apply seq_NoDup|]. intros a Ha. apply in_seq in Ha. lia.
+Qed.
+
 (* ================================================================== statements as pinned in Properties/C14.v *)
 Lemma P_C14_tour_wf_history : forall (c : bool) (ops : list top) (t : tour),
   guarded (tour_new c) ops -> trun (tour_new c) ops = Some t ->
